@@ -13,6 +13,7 @@ Definition loop_ok (st : cst) (rs : regfile) (D : ident -> bool) (e : expr) : Pr
   match loops st with
   | [] => True
   | li :: _ =>
+    l_start li <= ip st /\
     forall lr, l_result li = Some lr ->
       lr < N.of_nat (length rs) /\
       (lr < nlocals st \/ (tbase st <= lr /\ lr < tbase st + tcount st)) /\
@@ -33,16 +34,17 @@ Section SimQ.
   Variable pool : list pentry.
 
   Definition dynQ e r st out st' (c : code) :=
-    forall n s rs D prog brk,
+    forall n s rs D prog brk F,
+      ext st' F -> wfst F ->
       known_expr e = false ->
-      inv st D s rs -> (forall x, D x = true -> reads x e = false) ->
+      inv F D s rs -> (forall x, D x = true -> reads x e = false) ->
       dest_ok st r rs D e -> (esc e = true -> loop_ok st rs D e) ->
       tbase st + tused st' <= N.of_nat (length rs) ->
       cares prog brk (ip st) c ->
       match eval n s e with
       | ONorm v s' =>
         exists rs', star pool prog (ip st) rs (ip st') rs' /\ length rs' = length rs /\
-                    inv st' (dirty st' r D) s' rs' /\
+                    inv F (dirty F r D) s' rs' /\
                     (forall ro, o_reg out = Some ro -> get rs' ro = Some v) /\
                     frame st st' r rs rs' e /\
                     (forall x, assigns x e = false -> s' x = s x) /\
@@ -52,7 +54,7 @@ Section SimQ.
         | [] => False
         | li :: _ =>
           exists rs', star pool prog (ip st) rs brk rs' /\ length rs' = length rs /\
-                      inv st' (dirty st' r D) s' rs' /\
+                      inv F (dirty F r D) s' rs' /\
                       (forall lr, l_result li = Some lr -> get rs' lr = Some v) /\
                       frameL st st' r li rs rs' e /\
                       (forall x, assigns x e = false -> s' x = s x)
@@ -62,7 +64,7 @@ Section SimQ.
         | [] => False
         | li :: _ =>
           exists rs', star pool prog (ip st) rs (l_start li) rs' /\ length rs' = length rs /\
-                      inv st' (dirty st' r D) s' rs' /\
+                      inv F (dirty F r D) s' rs' /\
                       (forall lr, l_result li = Some lr -> get rs' lr = Some VNull) /\
                       frameL st st' r li rs rs' e /\
                       (forall x, assigns x e = false -> s' x = s x)
@@ -90,8 +92,8 @@ Section SimQ.
     destruct (HP r st out st' c H W Dr) as ((I & E & W' & SH) & DY). split.
     - unfold factsQ, shapeQ. splits; auto.
       destruct (is_jump e) eqn:J; [apply is_jump_esc in J; congruence|exact SH].
-    - intros n s rs D prog brk K IV RD DO LO B CA.
-      specialize (DY n s rs D prog brk K IV RD DO B CA).
+    - intros n s rs D prog brk F EF WFF K IV RD DO LO B CA.
+      specialize (DY n s rs D prog brk F EF WFF K IV RD DO B CA).
       destruct (eval n s e); auto; try contradiction.
       destruct DY as (rs' & A1 & A2 & A3 & A4 & A5 & A6). exists rs'. splits; auto.
       intros d ->. apply A4. cbn [shape] in SH. destruct SH as (-> & _). reflexivity.
@@ -103,9 +105,9 @@ Section SimQ.
     destruct (HQ WF r st out st' c H W Dr) as ((I & E & W' & SH) & DY). split.
     - unfold facts. splits; auto. unfold shapeQ in SH.
       destruct (is_jump e) eqn:J; [apply is_jump_esc in J; congruence|exact SH].
-    - intros n s rs D prog brk K IV RD DO B CA.
+    - intros n s rs D prog brk F EF WFF K IV RD DO B CA.
       assert (LO : esc e = true -> loop_ok st rs D e) by (intros; congruence).
-      specialize (DY n s rs D prog brk K IV RD DO LO B CA).
+      specialize (DY n s rs D prog brk F EF WFF K IV RD DO LO B CA).
       pose proof (sem_no_esc n e s NE) as NJ.
       destruct (eval n s e); auto; try contradiction.
       destruct DY as (rs' & A1 & A2 & A3 & A4 & A5 & A6 & A7). exists rs'. splits; auto.
@@ -114,13 +116,13 @@ Section SimQ.
   Lemma nestedQ : forall a, Q a -> Q (ENested a).
   Proof.
     intros a IH WF r st out st' c H W Dr. cbn [wf_expr comp dropped] in *.
-    destruct (IH WF r st out st' c H W Dr) as (F & Dy). split.
-    - unfold factsQ, shapeQ, shape in *. cbn [is_jump out_var]. exact F.
-    - intros n s rs D prog brk K IV RD DO LO B CA. destruct n; [exact Logic.I|]. cbn [eval].
+    destruct (IH WF r st out st' c H W Dr) as (FF & Dy). split.
+    - unfold factsQ, shapeQ, shape in *. cbn [is_jump out_var]. exact FF.
+    - intros n s rs D prog brk F EF WFF K IV RD DO LO B CA. destruct n; [exact Logic.I|]. cbn [eval].
       cbn [known_expr] in K.
       assert (DO' : dest_ok st r rs D a).
       { intros d E. destruct (DO d E) as (A1 & A2 & A3). splits; auto. }
-      specialize (Dy n s rs D prog brk K IV RD DO' LO B CA).
+      specialize (Dy n s rs D prog brk F EF WFF K IV RD DO' LO B CA).
       destruct (eval n s a); auto.
   Qed.
 
@@ -129,9 +131,9 @@ Section SimQ.
     intros a IH WF r st out st' c H W Dr.
     cbn [wf_expr all_list] in WF. rewrite andb_true_r in WF.
     cbn [comp comp_block] in H. cbn [dropped drop_block] in Dr.
-    destruct (IH WF r st out st' c H W Dr) as (F & Dy). split.
-    - unfold factsQ, shapeQ, shape in *. cbn [is_jump out_var]. exact F.
-    - intros n s rs D prog brk K IV RD DO LO B CA. destruct n; [exact Logic.I|].
+    destruct (IH WF r st out st' c H W Dr) as (FF & Dy). split.
+    - unfold factsQ, shapeQ, shape in *. cbn [is_jump out_var]. exact FF.
+    - intros n s rs D prog brk F EF WFF K IV RD DO LO B CA. destruct n; [exact Logic.I|].
       cbn [eval eval_block]. cbn [known_expr any_list] in K. rewrite orb_false_r in K.
       assert (RD' : forall x, D x = true -> reads x a = false).
       { intros x Dx. apply RD in Dx. cbn in Dx. rewrite orb_false_r in Dx. exact Dx. }
@@ -139,10 +141,11 @@ Section SimQ.
       { intros d E. destruct (DO d E) as (A1 & A2 & A3). splits; auto. }
       assert (LO' : esc a = true -> loop_ok st rs D a).
       { intros E. cbn [esc any_list] in LO. rewrite orb_false_r in LO. specialize (LO E).
-        unfold loop_ok in *. destruct (loops st); [exact Logic.I|]. intros lr L.
+        unfold loop_ok in *. destruct (loops st); [exact Logic.I|]. destruct LO as (LS & LO).
+        split; [exact LS|]. intros lr L.
         destruct (LO lr L) as (A1 & A2 & A3). splits; auto. intros x Sx.
         destruct (A3 x Sx) as (B1 & B2). cbn in B2. rewrite orb_false_r in B2. auto. }
-      specialize (Dy n s rs D prog brk K IV RD' DO' LO' B CA).
+      specialize (Dy n s rs D prog brk F EF WFF K IV RD' DO' LO' B CA).
       assert (AS : forall x, assigns x (EBlock [a]) = assigns x a).
       { intros. cbn. apply orb_false_r. }
       unfold frame, frameL in *.
@@ -166,11 +169,13 @@ Section SimQ.
   (* a context fact that survives an extension of the compile state which keeps the temporaries *)
   Lemma loop_ok_ext : forall st st1 (rs rs1 : regfile) D e e1,
     ext st st1 -> wfst st -> wfst st1 -> tcount st1 = tcount st -> length rs1 = length rs ->
+    ip st <= ip st1 ->
     (forall x, assigns x e1 = true -> assigns x e = true) ->
     loop_ok st rs D e -> loop_ok st1 rs1 D e1.
   Proof.
-    intros st st1 rs rs1 D e e1 E W W1 TC LN AS LO. unfold loop_ok in *.
+    intros st st1 rs rs1 D e e1 E W W1 TC LN IP AS LO. unfold loop_ok in *.
     rewrite (ext_loops _ _ E). destruct (loops st) as [|li ls]; [exact Logic.I|].
+    destruct LO as (LS & LO). split; [lia|].
     intros lr L. destruct (LO lr L) as (A1 & A2 & A3).
     pose proof (ext_tbase _ _ E). pose proof (ext_len _ _ E). splits.
     - lia.
@@ -218,7 +223,7 @@ Section SimQ.
         unfold shapeQ in *. rewrite IJ. destruct (is_jump (EBlock (e2 :: rest))).
         * destruct SH2. split; [assumption|lia].
         * unfold shape in *. rewrite OVc. rewrite TB1, TC1 in SH2. exact SH2.
-    - intros n s rs D prog brk K IV RD DO LO B CA. destruct n; [exact Logic.I|].
+    - intros n s rs D prog brk F EF WFF K IV RD DO LO B CA. destruct n; [exact Logic.I|].
       change (eval (S n) s (EBlock (e :: e2 :: rest))) with
         (match eval n s e with ONorm _ s1 => eval_block (eval n) s1 (e2 :: rest) | o => o end).
       cbn [known_expr any_list] in K. apply orb_false_elim in K as [K1 K2].
@@ -229,11 +234,12 @@ Section SimQ.
       { intros x Dx. apply RD in Dx. cbn in Dx. apply orb_false_elim in Dx. cbn. tauto. }
       assert (DO1 : dest_ok st RNone rs D e) by (intros d Ed; discriminate).
       assert (LO1 : esc e = true -> loop_ok st rs D e).
-      { intros E. eapply (loop_ok_ext st st rs rs D (EBlock (e :: e2 :: rest)) e); eauto using ext_refl.
+      { intros E. eapply (loop_ok_ext st st rs rs D (EBlock (e :: e2 :: rest)) e); eauto using ext_refl; try lia.
         - intros x AX. cbn. rewrite AX. reflexivity.
         - apply LO. cbn. rewrite E. reflexivity. }
       assert (B1 : tbase st + tused st1 <= N.of_nat (length rs)) by (pose proof (ext_used _ _ E2); lia).
-      specialize (DY1 n s rs D prog brk K1 IV RD1 DO1 LO1 B1 CA1).
+      assert (EF1 : ext st1 F) by (eapply ext_trans; eauto).
+      specialize (DY1 n s rs D prog brk F EF1 WFF K1 IV RD1 DO1 LO1 B1 CA1).
       assert (AS1 : forall x, assigns x e = true -> assigns x (EBlock (e :: e2 :: rest)) = true).
       { intros x AX. cbn. rewrite AX. reflexivity. }
       assert (AS2 : forall x, assigns x (EBlock (e2 :: rest)) = true -> assigns x (EBlock (e :: e2 :: rest)) = true).
@@ -247,11 +253,11 @@ Section SimQ.
         assert (DO2 : dest_ok st1 r rs1 D (EBlock (e2 :: rest))).
         { eapply dest_ok_ext; eauto. }
         assert (LO2 : esc (EBlock (e2 :: rest)) = true -> loop_ok st1 rs1 D (EBlock (e2 :: rest))).
-        { intros E. eapply (loop_ok_ext st st1 rs rs1 D (EBlock (e :: e2 :: rest))); eauto.
+        { intros E. eapply (loop_ok_ext st st1 rs rs1 D (EBlock (e :: e2 :: rest))); eauto; try lia.
           apply LO. cbn in *. rewrite E. apply orb_true_r. }
         assert (B2 : tbase st1 + tused st' <= N.of_nat (length rs1)) by (rewrite LN1, TB1; exact B).
         rewrite <- I1 in CA2.
-        specialize (DY2 (S n) s1 rs1 D prog brk K2 IV1 RD2 DO2 LO2 B2 CA2).
+        specialize (DY2 (S n) s1 rs1 D prog brk F EF WFF K2 IV1 RD2 DO2 LO2 B2 CA2).
         change (eval (S n) s1 (EBlock (e2 :: rest))) with (eval_block (eval n) s1 (e2 :: rest)) in DY2.
         assert (FRk : forall k, k < tbase st + tcount st ->
                    (forall x, assigns x (EBlock (e :: e2 :: rest)) = true -> slot_of st' x <> Some k) ->
@@ -282,14 +288,14 @@ Section SimQ.
         destruct (loops st) as [|li ls]; [exact DY1|].
         destruct DY1 as (rs1 & St1 & LN1 & IV1 & RL & FR1 & SF1). apply dirty_none in IV1.
         exists rs1. splits; auto.
-        * eapply inv_weaken; [eapply inv_ext; eauto|]. intros. apply dirty_mono. assumption.
+        * eapply inv_weaken; [exact IV1|]. intros. apply dirty_mono. assumption.
         * intros k K3 K4 K4' K5. apply FR1; auto. cbn. discriminate.
           intros x AX. eapply slot_ext_neq; [exact E2|]. apply K5. auto.
         * intros x AX. destruct (ASF x AX). auto.
       + destruct (loops st) as [|li ls]; [exact DY1|].
         destruct DY1 as (rs1 & St1 & LN1 & IV1 & RL & FR1 & SF1). apply dirty_none in IV1.
         exists rs1. splits; auto.
-        * eapply inv_weaken; [eapply inv_ext; eauto|]. intros. apply dirty_mono. assumption.
+        * eapply inv_weaken; [exact IV1|]. intros. apply dirty_mono. assumption.
         * intros k K3 K4 K4' K5. apply FR1; auto. cbn. discriminate.
           intros x AX. eapply slot_ext_neq; [exact E2|]. apply K5. auto.
         * intros x AX. destruct (ASF x AX). auto.
@@ -310,12 +316,12 @@ Section SimQ.
       eapply BO; [exact HR|]. rewrite OR. cbn [emit_opt]. exact H. }
     assert (X : facts st r out st' c ENull /\ dyn pool ENull r st out st' c).
     { eapply (lit_case pool ENull ISetNull VNull); eauto. }
-    destruct X as (F & DY). split.
-    - exact F.
-    - intros n s rs D prog brk K IV RD DO B CA.
+    destruct X as (FF & DY). split.
+    - exact FF.
+    - intros n s rs D prog brk F EF WFF K IV RD DO B CA.
       assert (DO' : dest_ok st r rs D ENull).
       { intros d E. destruct (DO d E) as (A1 & A2 & A3). splits; auto. }
-      specialize (DY n s rs D prog brk eq_refl IV (fun _ _ => eq_refl) DO' B CA).
+      specialize (DY n s rs D prog brk F EF WFF eq_refl IV (fun _ _ => eq_refl) DO' B CA).
       destruct n; [exact Logic.I|]. exact DY.
   Qed.
 
